@@ -107,9 +107,22 @@ def check(prop, tier):
         import p_tool, ws, re
         from multiprocessing import Pool
         out, st = p_tool.enumerate_scenarios(res, 'related-names-scenarios', 'TreesSmall' if tier == 'quick' else 'TreesAll', 'TRUE', 2, 'Cfgs_one', work, 'FALSE')
-        lines = [l for l in open(out, errors='replace') if l.startswith('"{') and re.search(r'\\"old\\":\\"a\\",\\"new\\":\\"b\\"', l)]
+        alllines = [l for l in open(out, errors='replace') if l.startswith('"{')]
+        lines = [l for l in alllines if re.search(r'\\"old\\":\\"a\\",\\"new\\":\\"b\\"', l)]
         os.unlink(out)
         pick = rnd.sample(lines, min(len(lines), 1200 if tier == 'quick' else 15000))
+        # "no file is ever loaded or written by two workers": patches with two file patches for different files (their
+        # file patches are dealt out to the workers one by one), followed by a patch that touches one of them again
+        multi = []
+        for l in rnd.sample(alllines, min(len(alllines), 12000 if tier == 'quick' else 120000)):
+            if '\\"exit\\":0' not in l:
+                continue
+            sc = json.loads(json.loads(l))
+            fps = sc['series'][0]['fps']
+            name = lambda fp: fp['new'] if fp['old'] == 'NULL' else fp['old']
+            if len(fps) == 2 and name(fps[0]) != name(fps[1]) and not sc['outs'][0]['out']['adversarial'] and sc['outs'][0]['out']['exit'] == 0:
+                multi.append(l)
+        pick += multi[:1200 if tier == 'quick' else 15000]
         jobs = []
         for li, line in enumerate(pick):
             sc = json.loads(json.loads(line))
@@ -126,7 +139,7 @@ def check(prop, tier):
                     nb += 1
                     res.violation('cli:' + cat, 'series that relates file names, %d threads: the result is not the reference one (%s)' % (threads, msg),
                                   {'tree0': sc['tree0'], 'series': sc['series'], 'cfg': cfg, 'threads': threads, 'reference': o})
-        res.cov['parts']['related-names-scenarios'].update({'scenarios_relating_names': len(lines), 'runs': len(jobs), 'bad': nb})
+        res.cov['parts']['related-names-scenarios'].update({'scenarios_relating_names': len(lines), 'two_file_patch_scenarios': len(multi), 'runs': len(jobs), 'bad': nb})
         res.cov['traces_validated_against_impl'] += len(jobs)
         ws.cleanup_all()
     finally:
